@@ -38,11 +38,22 @@ M = [
  ("C16_amalgamated_stops_early", "C16", "internal/cmd/runner/step_amalgamated.go", "\t\terrs = append(errs, st.Run(i, o))", "\t\tif err := st.Run(i, o); err != nil {\n\t\t\treturn err\n\t\t}", "StepAmalgamated"),
  ("C18_compare_inverted", "C18", "internal/pkg/input/validators_version.go", "if semver.Compare(curr, given) < 0 {", "if semver.Compare(curr, given) > 0 {", "ValidateVersion"),
  ("C18_major_zero_like_others", "C18", "internal/pkg/input/validators_version.go", 'if semver.Major(v.version) == "v0" {', 'if semver.Major(v.version) == "v00" {', "ValidateVersion"),
+ ("C03_chunker_drops_delimiter", "C03", "internal/pkg/token/chunker.go", "r = append(r, buff+Delimiter)", "r = append(r, buff)", "Chunks"),
+ ("C03_chunker_keeps_open_token", "C03", "internal/pkg/token/chunker.go", "\tif opened {\n\t\treturn nil, fmt.Errorf(\"not closed token: %+q\", buff)\n\t}\n", "\tif opened && buff == \"\" {\n\t\treturn nil, fmt.Errorf(\"not closed token: %+q\", buff)\n\t}\n", "Chunks"),
+ ("C03_toexpr_keeps_last_delimiter", "C03", "internal/pkg/token/common.go", "return string(runes[1 : len(runes)-1]), true", "return string(runes[1:]), true", "toExpr"),
+ ("C09_readconfig_merge_swapped", "C09", "internal/cmd/runner/step_read_config.go", "*i = input.Merge(*i, tmp)", "*i = input.Merge(tmp, *i)", "StepReadConfig"),
+ ("C16_flag_switches_wrong_rule", "C16", "internal/cmd/cmd_build.go", "paramsExistActive:   !ignoreMissingParams,", "paramsExistActive:   !ignoreMissingServices,", "NewBuildCmd"),
+ ("C10_quiet_errors_to_stdout", "C10", "internal/cmd/cmd_build.go", "errWriter := out", "errWriter := cmd.OutOrStdout()", "NewBuildCmd"),
+ ("C14_functions_before_imports", "C14", "internal/pkg/compiler/step_compile_meta.go", "\terrs = append(errs, s.handleImports(i.Meta.Imports))\n\ts.handleFunctions(i.Meta.Functions)\n", "\ts.handleFunctions(i.Meta.Functions)\n\terrs = append(errs, s.handleImports(i.Meta.Imports))\n", "aliases_registered_before_functions"),
+ ("C02_value_pointer_dropped", "C02", "internal/pkg/syntax/helpers.go", "return m[\"ptr\"] + strings.Join(append(parts, m[\"value\"]), \".\")", "return strings.Join(append(parts, m[\"value\"]), \".\")", "CompileServiceValue"),
+ ("C08_output_path_made_absolute", "C08", "internal/cmd/runner/step_code_generator.go", None, None, ""),
 ]
 out = "/verif/selftest/mutants"
 scratch = "/var/tmp/govc-mkmut"
 bad = 0
 for name, prop, f, old, new, expect in M:
+    if old is None:
+        continue
     shutil.rmtree(scratch, ignore_errors=True)
     os.makedirs(scratch + "/a/" + os.path.dirname(f)); os.makedirs(scratch + "/b/" + os.path.dirname(f))
     src = open("/repo/" + f).read()
